@@ -289,6 +289,8 @@ func runCloses(c CloseCase) (*closeStats, error) {
 			}
 		}
 	}
+	// from here to the census the garbage collector is held: what a Close forgot must still be there to be counted
+	defer holdGC()()
 	if late != nil {
 		late.hold.Store(true)
 		if nc, err := net.DialTimeout("tcp", w.Host, 2*time.Second); err == nil {
